@@ -105,6 +105,16 @@ def inputs(t, rnd):
     vals += ["(010, 020, 030)", "( 007 , 8 , 9 )", "010, 020, 030", "[1, 2, 3]", "(1, 2, 3,)", "(0x10, 1, 2)", "(1_0, 2, 3)", "(1e1, 2, 3)", "(0o7, 1, 2)",
              "(1, 2, 3) if 1 else 0", "(__import__('os').getcwd(), 1, 2)", "(1,\n2,\n3)", "(True, False, 1)", "(None, 1, 2)", "(1+1, 2, 3)", "((1), (2), (3))",
              "(08, 09, 010)", "(0, 0, 0)", "(00, 00, 00)", "(1.0, 2.0, 3.0)", "(١, ٢, ٣)"]
+    # colour syntax of later CSS levels (relative colours, colour spaces, mixing, maths, keywords inside the functions): strings to
+    # be refused or read - never a reason to raise
+    modern = ["rgb(from #336699 r g b)", "hsl(from red h s l)", "hsla(from currentcolor h s l / .5)", "rgba( from  #fff r g b / 50%)",
+              "RGB(FROM red r g b)", "rgb(from\tred r g b)", "hsl(from var(--c) calc(h + 30) s l)", "color-mix(in srgb, red, blue)",
+              "color-mix(in oklch, #fff 30%, #000)", "color(display-p3 1 0 0)", "color(srgb 0.2 0.4 0.6 / 0.5)", "lab(50% 40 59)",
+              "lch(50% 70 30)", "oklab(0.6 0.1 0.1)", "oklch(60% 0.15 50)", "hwb(120 10% 20%)", "light-dark(#000, #fff)",
+              "rgb(calc(1 + 2), 0, 0)", "rgb(var(--r), 0, 0)", "rgb(none none none)", "hsl(none 50% 50%)", "rgb(min(10, 20) 0 0)",
+              "rgb(1 2 3 / none)", "hsl(120deg none none / 1)", "device-cmyk(0 81% 81% 30%)", "contrast-color(#777)", "rgb(env(x), 1, 2)",
+              "rgba(attr(data-c), 0, 0, 1)", "hsl(0.5turn 50% 50%)", "rgb(100% 0% 0% / 50%)", "AccentColor", "canvastext", "-moz-default-color"]
+    vals += modern + [m_.upper() for m_ in modern[:8]] + [" " + m_ + " " for m_ in modern[:6]]
     vals += ["#-1-2-3", "#+1+2+3", "# 1 2 3", "#1_2_3_", "#0x0x0x", "#-f-f-f", "#- - - ", "#١٢٣", "#１２３", "#ⅠⅡⅢ"]
     # keywords spelled with characters that only SOME case mappings fold to ASCII (long s, ligatures, Kelvin sign, dotless i ...)
     folds = [("s", "\u017f"), ("fi", "\ufb01"), ("fl", "\ufb02"), ("ff", "\ufb00"), ("st", "\ufb06"), ("k", "\u212a"), ("i", "\u0131"), ("I", "\u0130"),
